@@ -127,6 +127,39 @@ def h_two_conversions(eng, n1, n2):
     _convert(eng, n2, 2, [], 2, False, tag="second-", counts0=(2, 7, 1))
 
 
+PQR_KINDS = [
+    ("ATOM", lambda i: f"ATOM  {100 + i:5d}  CA  ALA A{10 + i:4d}    {1.0 + i:8.3f}{2.0:8.3f}{3.0:8.3f} {0.25:7.4f} {1.8:6.4f}\n"),
+    ("HETATM", lambda i: f"HETATM{100 + i:5d}  C1  LIG B{10 + i:4d}    {1.0 + i:8.3f}{-2.0:8.3f}{3.5:8.3f} {-0.5:7.4f} {1.9:6.4f}\n"),
+    ("TER", lambda i: "TER\n"),
+    ("END", lambda i: "END\n"),
+    ("REMARK", lambda i: "REMARK   1 PQR file generated by PDB2PQR\n"),
+]  # a blank line makes Atom.from_pqr_line raise IndexError (loud): outside
+
+
+def h_atoms(eng, nlines):
+    """read_pqr -> write_cube: every ATOM / HETATM line of the PQR file, wherever it stands (after TER / END /
+    REMARK / blank lines, e.g. concatenated files), is listed exactly once, in order"""
+    from pdb2pqr import io
+
+    kinds = [eng.choice(f"line{i}", len(PQR_KINDS)) for i in range(nlines)]
+    lines = [PQR_KINDS[0][1](90)] + [PQR_KINDS[k][1](i) for i, k in enumerate(kinds)] + [PQR_KINDS[1][1](95), "END\n"]
+    want = [int(ln[6:11]) for ln in lines if ln.startswith(("ATOM", "HETATM"))]
+    eng.note(" ".join(PQR_KINDS[k][0] for k in kinds))
+    atoms = io.read_pqr(iter(lines))
+    dx = ["object 1 class gridpositions counts 1 1 2\n", "origin 0.0 0.0 0.0\n", "delta 1.0 0.0 0.0\n", "delta 0.0 1.0 0.0\n", "delta 0.0 0.0 1.0\n", "object 2 class gridconnections counts 1 1 2\n", "object 3 class array type double rank 0 items 2 data follows\n", "1.5 2.5\n", 'attribute "dep" string "positions"\n']
+    sink = _Sink()
+    io.write_cube(sink, io.read_dx(iter(dx)), atoms)
+    out = "".join(sink.parts).split("\n")
+    head = out[2].split()
+    eng.check(len(head) == 4 and int(head[0]) == len(want), "atom-count", note=f"cube header announces {head[0] if head else '?'} atoms, the PQR file has {len(want)} ATOM/HETATM lines ({[PQR_KINDS[k][0] for k in kinds]})")
+    got = []
+    for ln in out[6 : 6 + len(want)]:
+        w = ln.split()
+        if len(w) == 5:
+            got.append(int(w[0]))
+    eng.check(got == want, "every-atom-listed-once-in-order", note=f"cube lists atoms {got}, the PQR file has {want}")
+
+
 def obligations(tier):
     obs = []
     ns = [0, 1, 5, 6, 7, 12, 13] if tier == "quick" else list(range(0, 20)) + [23, 24, 25, 36, 60, 64]
@@ -136,6 +169,7 @@ def obligations(tier):
     for focus in (["counts"], ["origin"], ["delta"]):
         for natoms in (0, 2):
             obs.append(Obligation(f"convert-header-{focus[0]}-atoms{natoms}", h_convert, dict(n=7, vpl=3, focus=focus, natoms=natoms, comments=True), group="convert", time_cap=1500))
+    obs.append(Obligation("pqr-atoms-n3" if tier == "quick" else "pqr-atoms-n4", h_atoms, dict(nlines=3 if tier == "quick" else 4), group="atoms", time_cap=1200, max_paths=20000))
     for n1, n2 in ((5, 7),) if tier == "quick" else ((5, 7), (7, 5), (0, 6), (6, 0), (13, 13)):
         obs.append(Obligation(f"two-conversions-n{n1}-then-n{n2}", h_two_conversions, dict(n1=n1, n2=n2), group="two-conversions", time_cap=1200))
     return obs
@@ -159,7 +193,7 @@ META = dict(
     outside=[
         "printed precision of '13.5E' / '11.6f' beyond the stated tolerances (CPython's formatter)",
         "consistency of the DX header with its own value count; DX dialects other than the APBS layout (read_dx documents this)",
-        "blank lines inside the DX file (read_dx raises IndexError: loud)",
+        "blank lines inside the DX file (read_dx raises IndexError: loud); blank lines inside the PQR file (Atom.from_pqr_line raises IndexError: loud)",
     ],
     assumptions=["cube conventions: third line = atom count + origin, next three lines = signed count + step vector per axis (negative count: Angstrom units), one line per atom, then values x-outer/z-inner, at most six per line"],
     technique="symbolic execution of the real read_dx/write_cube on layout strings and numeric tokens (symx) + SMT verdict per path",
